@@ -44,6 +44,14 @@ def edits_change_outcome_iff_digest_changes(scriptSig: Any, scriptPubKey: Any, t
     raises(ValidationError, when=not expect_ok)
 
 
+@contract('bitcoin.core.scripteval:VerifySignature', name='verify_signature_against_funding_tx', prop=P)
+def verify_signature_against_funding_tx(txFrom: Any, txTo: Any, inIdx: Int):
+    """BOUNDED (OpenSSL): a correctly signed input verifies against the transaction it spends from, identified by its
+    TXID - also when that funding transaction carries witness data (its witness hash then differs from its txid)"""
+    option(bounded=150)
+    raises(ValidationError, when=False)
+
+
 # ---- the Python plumbing between the interpreter and OpenSSL: proved ---------------------------------------------
 import bitcoin.core.key as _key
 import bitcoin.core.scripteval as _se
@@ -130,7 +138,23 @@ def _base_tx(rng):
     return CMutableTransaction(vin, vout, rng.choice([0, 500000000, 17]), rng.choice([1, 2]))
 
 
-def _make_case(rng):
+def _fund(rng, tx, i, spk):
+    """a funding transaction WITH witness data (so its txid and its witness hash differ) whose output n carries spk;
+    input i of tx is pointed at it (before signing)"""
+    n = rng.randint(0, 2)
+    vout = [CMutableTxOut(rng.randint(1, 10 ** 8), CScript(b'\x51')) for _ in range(n)] + [CMutableTxOut(5 * 10 ** 7, spk)]
+    fvin = [CMutableTxIn(CMutableOutPoint(bytes(rng.getrandbits(8) for _ in range(32)), 0), CScript(), 0xffffffff)]
+    f = CMutableTransaction(fvin, vout, 0, 2)
+    if rng.random() < 0.7:
+        from bitcoin.core import CTxWitness, CTxInWitness
+        from bitcoin.core.script import CScriptWitness
+        f.wit = CTxWitness([CTxInWitness(CScriptWitness([b'\x01' * rng.choice([1, 72]), b'\x02' * 33]))])
+    f = CTransaction.from_tx(f)
+    tx.vin[i].prevout = CMutableOutPoint(f.GetTxid(), n)
+    return f
+
+
+def _make_case(rng, fund=None):
     """(tx, i, scriptSig, scriptPubKey, [(subscript, hashtype)]) for a freshly signed input"""
     tx = _base_tx(rng)
     i = rng.randrange(len(tx.vin))
@@ -141,6 +165,8 @@ def _make_case(rng):
         ht = rng.choice(HASHTYPES)
         inner = CScript([k.pub, OP_CHECKSIG]) if tmpl != 'p2pkh' else \
             CScript([OP_DUP, OP_HASH160, ec.hash160(k.pub), OP_EQUALVERIFY, OP_CHECKSIG])
+        if fund is not None:
+            fund.append(_fund(rng, tx, i, inner if tmpl != 'p2sh_p2pk' else CScript([OP_HASH160, ec.hash160(inner), OP_EQUAL])))
         sig = k.sign(SignatureHash(inner, tx, i, ht)) + bytes([ht])
         used.append((inner, ht))
         if tmpl == 'p2pk':
@@ -157,6 +183,8 @@ def _make_case(rng):
         redeem = CScript([m] + [k.pub for k in keys] + [n, OP_CHECKMULTISIG])
         chosen = sorted(rng.sample(range(n), m))
         sigs = []
+        if fund is not None:
+            fund.append(_fund(rng, tx, i, redeem if tmpl == 'multisig' else CScript([OP_HASH160, ec.hash160(redeem), OP_EQUAL])))
         for j in chosen:
             ht = rng.choice(HASHTYPES)
             sigs.append(keys[j].sign(SignatureHash(redeem, tx, i, ht)) + bytes([ht]))
@@ -271,8 +299,39 @@ def _gen_edited(rng):
             'tmpl': tmpl, 'edit': edit, 'expect_ok': before == after}
 
 
+def _gen_copied(rng):
+    """the scriptSig that is valid for input i also sits in input j != i: verification of j must judge j on its own
+    digest, also directly after input i was verified (a verdict remembered without the input index would show here)"""
+    tx, i, ssig, spk, used, keys, tmpl = _make_case(rng)
+    if len(tx.vin) < 2:
+        return _gen_edited(rng)
+    j = rng.choice([k for k in range(len(tx.vin)) if k != i])
+    tx.vin[j].scriptSig = ssig
+    before = [ref_legacy_sighash(s, tx, i, t)[0] for (s, t) in used]
+    after = [ref_legacy_sighash(s, tx, j, t)[0] for (s, t) in used]
+    return {'__build__': 'c05', 'raw': _bj(CTransaction.from_tx(tx).serialize()), 'i': j, 'ssig': _bj(ssig), 'spk': _bj(spk),
+            'tmpl': tmpl, 'edit': 'same scriptSig in another input', 'expect_ok': before == after, 'prime_i': i}
+
+
+def _gen_funded(rng):
+    fund = []
+    tx, i, ssig, spk, used, keys, tmpl = _make_case(rng, fund)
+    return {'__build__': 'c05_fund', 'raw': _bj(CTransaction.from_tx(tx).serialize()), 'i': i, 'from': _bj(fund[0].serialize())}
+
+
+def _build_c05_fund(inputs, chain):
+    return {'txFrom': CTransaction.deserialize(bytes(inputs['from']['__bytes__'])),
+            'txTo': CTransaction.deserialize(bytes(inputs['raw']['__bytes__'])), 'inIdx': inputs['i']}
+
+
 def _build_c05(inputs, chain):
     tx = CTransaction.deserialize(bytes(inputs['raw']['__bytes__']))
+    if 'prime_i' in inputs:
+        try:
+            VerifyScript(CScript(bytes(inputs['ssig']['__bytes__'])), CScript(bytes(inputs['spk']['__bytes__'])), tx,
+                         inputs['prime_i'], (SCRIPT_VERIFY_P2SH,))
+        except ValidationError:
+            pass
     out = {'scriptSig': CScript(bytes(inputs['ssig']['__bytes__'])), 'scriptPubKey': CScript(bytes(inputs['spk']['__bytes__'])),
            'txTo': tx, 'inIdx': inputs['i'], 'flags': (SCRIPT_VERIFY_P2SH,)}
     if 'edit' in inputs or True:
@@ -281,4 +340,7 @@ def _build_c05(inputs, chain):
 
 
 _replay.BUILD_HOOKS['c05'] = _build_c05
-_replay.GENERATORS.update({'signed_input_verifies': _gen_signed, 'edits_change_outcome_iff_digest_changes': _gen_edited})
+_replay.BUILD_HOOKS['c05_fund'] = _build_c05_fund
+_replay.GENERATORS.update({'signed_input_verifies': _gen_signed,
+                           'edits_change_outcome_iff_digest_changes': lambda rng: _gen_copied(rng) if rng.random() < 0.2 else _gen_edited(rng),
+                           'verify_signature_against_funding_tx': _gen_funded})
